@@ -253,3 +253,17 @@ def check_c13(prop, tier, seed):
         return 1
     log("[C13] held on everything explored (%.1fs)" % (time.time() - t0))
     return 0
+
+
+def check_c11(prop, tier, seed):
+    q = tier == "quick"
+    return generic_small(
+        prop, tier, seed,
+        "Codec", {"MAX": 4, "K": 8}, ["OkMeansValidated", "MemoryBounded", "RoundTrip"],
+        "codec_cases", ["--machines", 200 if q else 2000, "--bomb-mib", 64 if q else 1024],
+        "CodecTrace", {}, {"C11"},
+        rule="round trips of generated valid machines (random, 1..10^4 states up to the size limit, extreme numeric fields); hostile strings: truncations, bit flips, replacements, wrong versions, non-ASCII, structure-level corruption of the bincode bytes, random strings, zlib streams inflating to 2 MiB - 1 GiB, for both parsers; non-trivial = round trips",
+        assumptions=["byte-level fidelity of bincode / zlib / base64 is not modelled: the spec contributes the pipeline contract, the memory budget and the judgement of every record (DESIGN.md section 8)",
+                     "peak heap is measured by a counting global allocator inside the driver; the budget is 64 MiB + 2 x input length",
+                     "machines whose bincode encoding exceeds MAX_DECOMPRESSED_SIZE are outside the statement and skipped (counted)"],
+        level="exploration", nontrivial_key="round_trips")
